@@ -76,7 +76,7 @@ class Lock:
         self.f.close()
 
 
-_IMPORT_RE = re.compile(r"From\s+(Lib|Props|Spec|Model|Gen|Run)\s+Require\s+(?:Import|Export)\s+([^.]*)\.")
+_IMPORT_RE = re.compile(r"From\s+(Lib|Props|Spec|Model|Gen|Run|Snapshot)\s+Require\s+(?:Import\s+|Export\s+)?([^.]*)\.")
 
 
 def _imports(src):
